@@ -137,6 +137,13 @@ def faults(a):
             v = x.calibration_map.pop(k)
             x.calibration_map[FRESH] = v
         yield f"calmap:wrong-key:{k}", CAL, "calmap-wrong-key", wrong
+        ks = str(k)
+        for f in [q for q in dict.fromkeys([ks[:-1], ks[1:], ks + ks[-1]])
+                  if q and q.isidentifier() and q not in {str(z) for z in st + ct + cal}][:2]:
+            def wrongfrag(x, k=k, f=f):
+                v = x.calibration_map.pop(k)
+                x.calibration_map[sympy.Symbol(f)] = v
+            yield f"calmap:fragment-key:{k}:{f}", CAL, "calmap-wrong-key", wrongfrag
     yield "calmap:extra", CAL, "calmap-extra", lambda x: x.calibration_map.__setitem__(FRESH, 1.0)
     if cal:
         yield "calmap:extra-state-key", CAL, "calmap-extra", lambda x: x.calibration_map.__setitem__(st[0], 1.0)
@@ -149,6 +156,13 @@ def faults(a):
             v = x.process_noise.pop(c)
             x.process_noise[str(c)] = v
         yield f"pnoise:keyed-by-str:{c}", PN, "pnoise-str-key", bystr
+        cs = str(c)
+        for f in [q for q in dict.fromkeys([cs[:-1], cs[1:], cs + cs[-1]])
+                  if q and q.isidentifier() and q not in {str(z) for z in st + ct + cal}][:2]:
+            def pfrag(x, c=c, f=f):
+                v = x.process_noise.pop(c)
+                x.process_noise[sympy.Symbol(f)] = v
+            yield f"pnoise:fragment-key:{c}:{f}", PN, "pnoise-for-undeclared", pfrag
     if ct:
         yield "pnoise:all-missing", PN, "pnoise-missing", lambda x: x.process_noise.clear()
     yield "pnoise:for-a-state", PN, "pnoise-for-state", lambda x: x.process_noise.__setitem__(st[0], 1.0)
@@ -183,6 +197,15 @@ def faults(a):
                 v = x.sensor_noises[sn].pop(r)
                 x.sensor_noises[sn]["not_a_reading" if isinstance(r, str) else FRESH] = v
             yield f"snoise:wrong-reading-name:{sn}:{r}", SN, "snoise-wrong-reading-name", wrongname
+            # the wrong name is a fragment of the right one (a truncated or mistyped reading name)
+            rs = str(r)
+            frags = [f for f in dict.fromkeys([rs[:-1], rs[1:], rs[:1], rs[-1:], rs + rs[-1]])
+                     if f and f.isidentifier() and f not in {str(q) for q in rd}]
+            for f in frags[:3]:
+                def fragname(x, sn=sn, r=r, f=f):
+                    v = x.sensor_noises[sn].pop(r)
+                    x.sensor_noises[sn][f if isinstance(r, str) else sympy.Symbol(f)] = v
+                yield f"snoise:fragment-reading-name:{sn}:{r}:{f}", SN, "snoise-wrong-reading-name", fragname
         yield (f"snoise:extra-reading:{sn}", SN, "snoise-extra-reading",
                lambda x, sn=sn: x.sensor_noises[sn].__setitem__("extra_reading", 1.0))
         yield f"snoise:sensor-missing:{sn}", SN, "snoise-sensor-missing", lambda x, sn=sn: x.sensor_noises.pop(sn)
